@@ -15,7 +15,7 @@ Theorem C16_skiplist_sorted_map :
       /\ Permutation (kvs m) (map fst l)
       /\ (forall key, get cmp key m = assoc cmp key (kvs m))
       /\ (forall key, contains cmp key m = match assoc cmp key (kvs m) with Some _ => true | None => false end)
-      /\ scan_all m = kvs m
+      /\ scan_all cmp m = kvs m
       /\ (forall key, scan_from cmp key m = filter (ge_key cmp key) (kvs m))
       /\ (forall lo hi, cmp lo hi <> Gt ->
             scan_between cmp lo hi m = Some (filter (fun kv => ge_key cmp lo kv && le_key cmp hi kv) (kvs m)))
